@@ -12,7 +12,7 @@ import (
 func init() {
 	register(&propDef{
 		ID:          "C02",
-		Explanation: "Decides four structural necessary conditions of 'generated Go compiles and renders what the template denotes', for ALL emission paths of the generator (GEM: every function of package generator abstracted to a tree of emissions; loops unrolled 0/1/2; paths rendered with typed placeholders and parsed with go/parser): R1 every path is syntactically valid Go; R2 every string-literal emission is a well-formed interpreted-string body (constants checked with strconv.Unquote, holes must come through escapeQuotes or be html-escaped parser names); R3 expressions owned by a guarded construct (if / else-if / for / switch / case / conditional attribute) are only emitted or collected after the guard's own expression was emitted in the same function; R4 the two void-element tables agree, the void early-return precedes children and close tag, Go comments emit nothing; R5 the literal-coalescing layer closes a pending literal before any Go text; R6 every emission path type-checks (go/types, in process) against the current templ and templ/runtime packages with its holes left as undefined placeholders — a misspelled or removed runtime function, a wrong argument count, an assignment count mismatch or a wrongly typed value in an emitted template is reported; R7 a control-flow writer that receives the node following its own node passes it to every child list it writes (if / else-if / else, for, switch cases), so the last inline child of whichever branch is taken keeps its separation from inline content after the statement; R8 in the spread-attribute renderer every case whose value carries a boolean (bool, *bool, func() bool, KeyValue[…, bool]) writes the attribute only under a condition that has that boolean as a conjunct; R9 the node dispatcher renders a node's trailing whitespace exactly under `inline-or-text(current) && inline-or-text(next)` (same classifier on both); R10 element writers emit open tag, attributes, '>', children and close tag in this order on every path; R11 no emitted `if <expr> {` / `for <expr> {` has an empty body (what the condition guards is emitted inside it). R12 every function of the generator and parser that descends into one of Then / Else / ElseIfs of a conditional node descends into all of them (collectors and emitters of the same node agree on which children exist); R13 the runtime output buffer hands every byte to its bufio.Writer and never writes to the underlying writer without flushing first, and R14 pooled buffers are flushed before they are put back and reset on acquisition or release — both are necessary for the bytes of one render to reach its writer in program order and unmixed with another render's. R15 every element in the block-element table (after which whitespace is dropped) is block-level or hidden in the HTML user-agent style sheet, or a listed exception. R16 (= C15.R10) lazy generation skips a template only when its Go file is strictly newer. R17 (= C13.R1) every emitted template body reads and clears the children slot before rendering, so a child block reaches exactly the component it was passed to. R18 (= C07.R6) the generator rewrites attribute lists only on a deep copy of the parsed tree (generating twice from one tree, as templ fmt does, gives the same program); R19 the functions reached by the generator's inline/block test read no layout flag (IndentChildren, IndentAttrs, Multiline); R20 the void / block table lookups fold the case of the element name when the parser's name alphabet admits upper-case letters. NOT decided: that the emitted constants spell the template's markup (only their order and well-formedness), argument passing, that `go build` accepts arbitrary user expressions.",
+		Explanation: "Decides four structural necessary conditions of 'generated Go compiles and renders what the template denotes', for ALL emission paths of the generator (GEM: every function of package generator abstracted to a tree of emissions; loops unrolled 0/1/2; paths rendered with typed placeholders and parsed with go/parser): R1 every path is syntactically valid Go; R2 every string-literal emission is a well-formed interpreted-string body (constants checked with strconv.Unquote, holes must come through escapeQuotes or be html-escaped parser names); R3 expressions owned by a guarded construct (if / else-if / for / switch / case / conditional attribute) are only emitted or collected after the guard's own expression was emitted in the same function; R4 the two void-element tables agree, the void early-return precedes children and close tag, Go comments emit nothing; R5 the literal-coalescing layer closes a pending literal before any Go text; R6 every emission path type-checks (go/types, in process) against the current templ and templ/runtime packages with its holes left as undefined placeholders — a misspelled or removed runtime function, a wrong argument count, an assignment count mismatch or a wrongly typed value in an emitted template is reported; R7 a control-flow writer that receives the node following its own node passes it to every child list it writes (if / else-if / else, for, switch cases), so the last inline child of whichever branch is taken keeps its separation from inline content after the statement; R8 in the spread-attribute renderer every case whose value carries a boolean (bool, *bool, func() bool, KeyValue[…, bool]) writes the attribute only under a condition that has that boolean as a conjunct; R9 the node dispatcher renders a node's trailing whitespace exactly under `inline-or-text(current) && inline-or-text(next)` (same classifier on both); R10 element writers emit open tag, attributes, '>', children and close tag in this order on every path; R11 no emitted `if <expr> {` / `for <expr> {` has an empty body (what the condition guards is emitted inside it). R12 every function of the generator and parser that descends into one of Then / Else / ElseIfs of a conditional node descends into all of them (collectors and emitters of the same node agree on which children exist); R13 the runtime output buffer hands every byte to its bufio.Writer and never writes to the underlying writer without flushing first, and R14 pooled buffers are flushed before they are put back and reset on acquisition or release — both are necessary for the bytes of one render to reach its writer in program order and unmixed with another render's. R15 every element in the block-element table (after which whitespace is dropped) is block-level or hidden in the HTML user-agent style sheet, or a listed exception. R16 (= C15.R10) lazy generation skips a template only when its Go file is strictly newer. R17 (= C13.R1) every emitted template body reads and clears the children slot before rendering, so a child block reaches exactly the component it was passed to. R18 (= C07.R6) the generator rewrites attribute lists only on a deep copy of the parsed tree (generating twice from one tree, as templ fmt does, gives the same program); R19 the functions reached by the generator's inline/block test read no layout flag (IndentChildren, IndentAttrs, Multiline); R20 the void / block table lookups fold the case of the element name when the parser's name alphabet admits upper-case letters. NOT decided: that the emitted constants spell the template's markup (only their order and well-formedness), argument passing, that `go build` accepts arbitrary user expressions. R21 doctype and text nodes go into the literal with Go escaping only (no second HTML escaping); R22 the body of a script template is never trimmed at its end (a trailing // comment would swallow the closing brace).",
 		Assumptions: []string{"go/parser accepts exactly syntactically valid Go", "placeholders stand for a user expression / identifier of the right syntactic category (searched, ≤5 categories per hole)"},
 		Trusted:     []string{"go/types", "go/parser", "x/tools go/packages", "strconv.Unquote"},
 		Run:         runC02,
@@ -41,6 +41,8 @@ func runC02(c *Ctx) {
 	deepCopyBeforeMutation(c, "C02.R18")
 	renderClassificationIgnoresLayout(c, "C02.R19")
 	tableLookupsFoldCase(c, "C02.R20")
+	markupNodesWrittenVerbatim(c, "C02.R21")
+	scriptTemplateBodyKeepsItsEnd(c, "C02.R22")
 }
 
 // guarded child lists: owner type → fields that hold the guarded children
@@ -346,7 +348,7 @@ func symDiff(a, b []string) []string {
 // rwLayer: the literal-coalescing layer of the range writer.
 func rwLayer(c *Ctx, rule string) {
 	g := c.gem()
-	closeFn := g.byName["RangeWriter.closeLiteral"]
+	closeFn := g.literalCloser()
 	// the flag field: a bool field of RangeWriter
 	for _, gf := range g.order {
 		if !gf.Emits || gf.Decl.Recv == nil || recvTypeName(gf.Decl.Recv.List[0].Type) != "RangeWriter" {
@@ -386,6 +388,10 @@ func rwLayer(c *Ctx, rule string) {
 					ok = strings.Contains(a.Labels[0], "inLiteral") || true
 				}
 			}
+		}
+		// … or the closer is called unconditionally and tests the flag itself
+		if cw, isCW := first.(CallW); isCW && closeFn != nil && cw.Fn == closeFn.Obj {
+			ok = true
 		}
 		c.check(ok, rule, key, c.pos(gf.Decl.Pos()), "Go text is only written after a pending string literal was closed",
 			gf.Name+": writes Go text without first closing a pending literal (`if rw.inLiteral { closeLiteral }`): literal text would be emitted after the Go statement that follows it in the template")
@@ -437,7 +443,7 @@ func rwLayer(c *Ctx, rule string) {
 			"closing a literal clears the flag, increments the index once, appends the literal once and resets the pending text",
 			fmt.Sprintf("closeLiteral bookkeeping changed (flag cleared ×%d, index++ ×%d, append ×%d, Reset ×%d; each must be exactly 1): literal indices and the collected literal list would drift apart", flagFalse, incs, appends, resets))
 		// the appended value is the text placed between the quotes
-		path, ok := g.singlePath(closeFn)
+		path, ok := g.closerPath()
 		good := false
 		if ok {
 			for _, nd := range path {
@@ -1261,4 +1267,118 @@ func tableLookupsFoldCase(c *Ctx, rule string) {
 	}
 	c.count("element_table_lookups", n)
 	c.floor(rule, 2)
+}
+
+// markupNodesWrittenVerbatim: C02.R21 — a doctype and a text node are pieces of the template's own markup (the parser
+// keeps them as written, character references included). The generator copies them into a string literal with the Go
+// escaping that needs (escapeQuotes) and nothing else: HTML-escaping them again turns `"-//W3C//DTD…"` into
+// `&#34;-//W3C…` (a malformed doctype: quirks mode) and `&amp;` into `&amp;amp;`.
+func markupNodesWrittenVerbatim(c *Ctx, rule string) {
+	g := c.gem()
+	pp := c.pkg("parser/v2")
+	verbatim := map[string]bool{"DocType": true, "Text": true}
+	n := 0
+	for _, gf := range g.order {
+		if !gf.Emits || gf.Decl == nil {
+			continue
+		}
+		kind := ""
+		for _, prm := range gf.Decl.Type.Params.List {
+			if nt, ok := g.info.TypeOf(prm.Type).(*types.Named); ok && nt.Obj().Pkg() == pp.Types && verbatim[nt.Obj().Name()] {
+				kind = nt.Obj().Name()
+			}
+		}
+		if kind == "" {
+			continue
+		}
+		bad := ""
+		var inFunc func(p Part) bool
+		inFunc = func(p Part) bool {
+			if p.Kind == PFunc && p.Fn == "html.EscapeString" {
+				return true
+			}
+			for _, a := range p.Args {
+				for _, ap := range a {
+					if inFunc(ap) {
+						return true
+					}
+				}
+			}
+			return false
+		}
+		nlit := 0
+		walkNodes(gf.Tree, func(nd Node) {
+			if e, ok := nd.(Emit); ok && e.Lit {
+				nlit++
+				for _, p := range e.Parts {
+					if inFunc(p) {
+						bad = p.Src
+					}
+				}
+			}
+		})
+		if nlit == 0 {
+			continue
+		}
+		n++
+		c.check(bad == "", rule, gf.Key+"|"+kind+"|markup-as-written", c.pos(gf.Decl.Pos()), "the node's text goes into the literal with Go escaping only",
+			fmt.Sprintf("%s HTML-escapes the text of a %s node (%s): it is markup the author wrote, so quotes and character references in it are escaped a second time and the document differs from the template (a legacy doctype becomes malformed and switches the page to quirks mode)", gf.Name, kind, bad))
+	}
+	c.count("verbatim_markup_emitters", n)
+	c.floor(rule, 2)
+}
+
+// scriptTemplateBodyKeepsItsEnd: C02.R22 — the body of a `script` template is placed between `function f(…){` and `}`.
+// Its END must stay as written: if the body's last line is a `//` comment, the line break after it is what keeps the
+// closing brace out of the comment. Trimming at the start is harmless, trimming at the end (TrimSpace, TrimRight…)
+// makes the emitted function a syntax error for such bodies.
+func scriptTemplateBodyKeepsItsEnd(c *Ctx, rule string) {
+	gp := c.pkg("generator")
+	info := gp.TypesInfo
+	pp := c.pkg("parser/v2")
+	n := 0
+	for _, fd := range allFuncDecls(gp) {
+		if fd.Body == nil {
+			continue
+		}
+		isScript := false
+		var prm types.Object
+		for _, p := range fd.Type.Params.List {
+			if nt, ok := info.TypeOf(p.Type).(*types.Named); ok && nt.Obj().Pkg() == pp.Types && nt.Obj().Name() == "ScriptTemplate" && len(p.Names) == 1 {
+				isScript, prm = true, info.Defs[p.Names[0]]
+			}
+		}
+		if !isScript {
+			continue
+		}
+		// calls of string functions on <param>.Value
+		ast.Inspect(fd.Body, func(x ast.Node) bool {
+			call, ok := x.(*ast.CallExpr)
+			if !ok || len(call.Args) == 0 {
+				return true
+			}
+			fn := calleeOf(info, call)
+			if fn == nil || fn.Pkg() == nil || fn.Pkg().Path() != "strings" {
+				return true
+			}
+			se, ok := ast.Unparen(call.Args[0]).(*ast.SelectorExpr)
+			if !ok || se.Sel.Name != "Value" {
+				return true
+			}
+			if id, ok := ast.Unparen(se.X).(*ast.Ident); !ok || info.ObjectOf(id) != prm {
+				return true
+			}
+			n++
+			trimsEnd := false
+			switch fn.Name() {
+			case "TrimSpace", "Trim", "TrimRight", "TrimRightFunc", "TrimFunc", "TrimSuffix":
+				trimsEnd = true
+			}
+			c.check(!trimsEnd, rule, fmt.Sprintf("%s|body:strings.%s|end-kept", funcKey(gp, fd), fn.Name()), c.pos(call.Pos()), "only the start of the script body is trimmed",
+				fmt.Sprintf("%s trims the END of the script template's body with strings.%s: when the body's last line ends in a `//` comment the closing `}` of the emitted function lands inside the comment and the script no longer parses", fd.Name.Name, fn.Name()))
+			return true
+		})
+	}
+	c.count("script_body_text_operations", n)
+	c.floor(rule, 1)
 }
